@@ -743,3 +743,9 @@ pub fn reset_screen() {
 		cs.clear().ok();
 	}
 }
+
+/// Verification hook: exposes the private command interpretation (see `crate::verif`).
+#[cfg(watchexec_verif)]
+pub fn verif_interpret_command_args(args: &Args) -> Result<Arc<Command>> {
+	interpret_command_args(args)
+}
